@@ -103,6 +103,9 @@ def judge(s, mon, sc):
                 mon.hist("high_zero_bytes_" + k, n)
     else:
         mon.count("whitebox_attribution_failed")
+        if sc.get("a") or sc.get("b"):
+            mon.inconc("private-key injection / attribution ineffective: corpus and boundary-key classes were run as ordinary logins, "
+                       "their classes (zero bytes of S etc.) could not be confirmed")
     if sc.get("reimport"):
         cls.append("reimp")
         mon.count("reimported")
